@@ -10,6 +10,10 @@ CHECKS = {
          "Synthetic endpoints declared with the public macros (one per field-attribute kind: path, query, query_all, required/optional headers, body fields, newtype body, raw body) and a sample of real client / federation / appservice / push-gateway endpoints plus the client error response travel request -> HTTP -> router (own path matcher and percent-decoder) -> request' -> HTTP and must be identical field by field and byte by byte, over a reserved-character alphabet; for every endpoint METADATA scanned from the tree at check time (211 + 5 synthetic histories) x all 2^15 subsets of Matrix versions (quick: every distinct history shape) make_endpoint_url must equal the reference selection; Authorization header per AuthScheme x token mode; X-Matrix values and header texts round-trip.",
          "Trusted: the hand-written router / percent-decoder / selection reference, http crate types. Excluded by construction and counted: empty path arguments, `opt=` for optional query values (form encoding cannot express Some(\"\")), values the encoder refuses. Two open known findings (non-ASCII header values, default Content-Type on raw bodies).",
          "DESIGN.md section 5 C16"),
+ "C18": ("vf-events", "property-based testing (proptest): schema-driven event generation, typed round-trip fixpoint with a duplicate-rejecting reader, metamorphic key permutation / unknown-field insertion",
+         "Events of 50 types generated from hand-written spec schemas (optional fields, unknown fields at several depths, key permutation, full / sync / stripped formats, unsigned variants, redacted forms for room versions 1-11 produced by the C04 reference redaction, unknown types): the matching Any* enum must deserialise them, expose the JSON's type / sender / ids / timestamp / state key, pick the redacted variant exactly when unsigned.redacted_because is present; typed content -> JSON -> typed -> JSON must be a fixpoint without duplicate keys that alters no value present and ignores key order and unknown fields; Raw returns the text byte for byte and get_field agrees with a full parse.",
+         "Trusted: the hand-written schemas (client-server spec), the C04 reference redaction, serde_json as JSON reader on the oracle side plus an own duplicate-key detector. Unknown-type contents are not serialisable by design (totality only).",
+         "DESIGN.md section 5 C18"),
  "C19": ("vf-api", "bounded-exhaustive pairwise check of all specified spellings plus property-based near-miss / random string generation against a hand-written spelling table",
          "63 string enums (ruma-common, ruma-events incl. the seven event-type enums, ruma-state-res, client / federation / identity / push-gateway API crates) with 330+ spellings and their dedicated variants written from the specification: every spelling maps to its variant and back, nothing else maps to a dedicated variant, unknown strings (case flips, one-character edits, prefixes/suffixes, whitespace, random Unicode) are returned byte for byte, the alias maps to its canonical spelling, wildcard types keep their suffix; idempotence, Display / JSON agreement, == and Ord consistency (string order for the hand-listed AsRefStr-ordered types).",
          "Trusted: the hand-written table. Unstable-feature variants are not compiled in. Enums with std-derived Ord are only checked for total-order consistency (declaration order is what the code documents).",
